@@ -1,8 +1,35 @@
-"""C09 - authenticated map/set: contents, content-only root, faithful reopen."""
+"""C09 - authenticated map/set: contents, content-only root, faithful reopen.
+
+One module (spec/ads/AuthMap.tla), one adapter (harness/sut/ads) that builds ads.NewMap or ads.NewSet
+over mapdb according to cfg.flavour.  Quick tier: TLC exhaustive on AuthMap.cfg (3 keys x 3 values),
+transition tour over AuthMap.lts.cfg (map 3 keys x {"", "a"}, set 4 keys; both serializers of the empty
+value; observers in st / observers as stimuli), recorded histories over 4 keys x 3 values.
+Thorough tier: TLC on AuthMap.thorough.cfg (4 keys), tour over AuthMap.ltsthorough.cfg (3 keys x 3 values).
+"""
+import glob
+import os
+import shutil
+
 from lib.units import SeqUnit
+
+
+class AdsUnit(SeqUnit):
+    """SeqUnit whose thorough tier uses different constants for the exhaustive run (AuthMap.thorough.cfg)
+    and for the exported transition system (AuthMap.ltsthorough.cfg): the former would be millions of edges."""
+
+    def run_lts(self, ctx, sd):
+        if ctx.thorough:
+            tmp = os.path.join(ctx.out, "spec-lts")
+            shutil.rmtree(tmp, ignore_errors=True)
+            os.makedirs(tmp)
+            for f in glob.glob(os.path.join(sd, "*.tla")):
+                shutil.copy(f, tmp)
+            shutil.copy(os.path.join(sd, self.module + ".ltsthorough.cfg"), os.path.join(tmp, self.module + ".thorough.cfg"))
+            sd = tmp
+        super().run_lts(ctx, sd)
 
 
 def units(ctx):
     return [
-        SeqUnit("ads", "AuthMap"),
+        AdsUnit("ads", "AuthMap", traces=(120, 80), thorough_traces=(800, 120), mc_timeout=1500),
     ]
